@@ -137,6 +137,23 @@ def main():
     engines = {}
     for i, c in CHECKS.items():
         engines.setdefault(c['engine'], []).append(i)
+    more = [('BufMgr', ['C01', 'C02'], 'checks/bufmgr.py + harness/zz_bufmgr_test.go (manager level of the free lists)'),
+            ('LinkedBuffer', ['C06', 'C08', 'C09'], 'checks/bytepipe.py structural pass + harness/zz_bytepipe_test.go (slice-level model compared with the real linkedBuffer)'),
+            ('Listener', ['C14'], 'checks/listenermod.py + harness/zz_listenermod_test.go (additional pass of C14)'),
+            ('EventConnWriters', ['C18'], 'checks/eventconn.py + harness/zz_eventconn_test.go (writer protocol)'),
+            ('EventConnDispatch', ['C18'], 'checks/eventconn.py + harness/zz_eventconn_test.go (epoll event masks on the real dispatcher)'),
+            ('Trace_FreeList', ['C01', 'C02'], 'trace validation of recorded real schedules'),
+            ('Trace_IOQueue', ['C04', 'C05'], 'trace validation of recorded real schedules'),
+            ('Trace_EventConn', ['C18'], 'trace validation of real write loops'),
+            ('Trace_StreamPool', ['C15'], 'trace validation of concurrent real runs'),
+            ('Trace_HotRestart', ['C16', 'C17'], 'trace validation of executions recorded through the verif-tagged hooks')]
+    engines.setdefault('Blocking', [])
+    if 'C07' not in engines['Blocking']:
+        engines['Blocking'].append('C07')
+    engines.setdefault('Callback', [])
+    for x in ('C10', 'C09'):
+        if x not in engines['Callback']:
+            engines['Callback'].append(x)
     m = {
         'version': 1,
         'setup_cmd': 'cd /verif && ./setup.sh',
@@ -145,7 +162,9 @@ def main():
                   'source_commits': ['b52bc24', '633daf6'], 'add_only': True},
         'engines': [{'name': n, 'path': '/verif/specs/%s.tla' % n, 'serves_properties': ps,
                      'kind_free_text': 'TLA+ module checked by TLC, bound to the code by checks/%s.py + harness/zz_%s_test.go' % (n.lower(), n.lower())}
-                    for n, ps in engines.items()],
+                    for n, ps in engines.items()] +
+                   [{'name': n, 'path': '/verif/specs/%s.tla' % n, 'serves_properties': ps,
+                     'kind_free_text': 'TLA+ module checked by TLC; ' + t} for n, ps, t in more],
         'checks': checks,
         'not_applicable': na,
         'notes': 'exit 0 held / 1 VIOLATION / 2 inconclusive (TLC lead not reproduced on the code, tool failure, timeout). Known findings: /verif/known-findings.txt.',
